@@ -125,7 +125,7 @@ struct LeafSenderT {
         self->cb.reset();
         --ls->completing; ++ls->completed;
         if (ch == 'V') {
-          if constexpr (sizeof...(Vs) == 1) unifex::set_value(std::move(self->r), v);
+          if constexpr (sizeof...(Vs) == 1) unifex::set_value(std::move(self->r), int(v));
           else unifex::set_value(std::move(self->r));
         } else if (ch == 'D') unifex::set_done(std::move(self->r));
         else unifex::set_error(std::move(self->r), std::make_exception_ptr(tagged_error{v}));
